@@ -348,9 +348,9 @@ extern "C" void __lsan_ignore_object(const void * p) __attribute__((weak));
 inline void verif_abandon_writer(Writer & w) {
     // Close the descriptor in the VFS without letting the writer emit its closing chunks:
     // we simply drop the instance.  All its heap blocks stay reachable from a static list.
-    static std::vector<void *> graveyard;
-    if (w.wr) graveyard.push_back(w.wr);
-    if (w.twr) graveyard.push_back(w.twr);
+    static std::vector<void *> * graveyard = new std::vector<void *>();   // never destroyed: stays reachable
+    if (w.wr) { graveyard->push_back(w.wr); if (__lsan_ignore_object) __lsan_ignore_object(w.wr); }
+    if (w.twr) { graveyard->push_back(w.twr); if (__lsan_ignore_object) __lsan_ignore_object(w.twr); }
     w.wr = nullptr; w.twr = nullptr;
 }
 
